@@ -229,6 +229,8 @@ class Sim:
     def op_second_system(self, op):
         """Try to create a second System over objects of the first one (must be refused)."""
         from efootprint.core.system import System
+        for sub in op.get("before", []):
+            self.apply(sub)
         if "new_up" in op:
             self.create(op["new_up"]["name"], "UsagePattern", op["new_up"]["attrs"])
             ups = [self.obj(op["new_up"]["name"])]
